@@ -41,9 +41,12 @@ ASSUMPTIONS = ["real arithmetic (no rounding): theorems over R; correspondence o
                "Voronoi natural-neighbour weights are out of scope (external C library absent)",
                "the Delaunay triangulation itself (which triangles qhull builds) is not verified, only its contract on each case"]
 
-SKIPPED = {"in_band": 0, "oracle_boundary": 0}
+SKIPPED = {"in_band": 0}
+TALLY = {"rect_points": 0, "rect_points_exactly_on_a_cell_boundary": 0, "rect_points_in_last_row_or_column": 0,
+         "del_points": 0, "del_points_outside_hull": 0, "del_points_on_an_edge_or_vertex": 0, "float_sub_size_cases": 0,
+         "non_square_meshes": 0, "sub_sizes": {}}
 def extra_evidence():
-    return {"skipped_in_decision_band": SKIPPED["in_band"], "decision_margin": "1e-9 cell widths"}
+    return {"skipped_in_decision_band": SKIPPED["in_band"], "decision_margin": "1e-9 cell widths", "distribution": TALLY}
 
 # ----------------------------------------------------------------------------- printing
 def cnl(v): return clist([cnat(x) for x in v])
@@ -225,8 +228,8 @@ def gen_inputs(tier, rng):
         n = sum(1 for r in m for b in r if not b)
         via = rng.choice(["util", "sampler", "sampler_float", "radial_bins"])
         if via == "radial_bins":
-            yield {"op": "sfs", "m": m, "subs": None, "via": via, "sub_size_list": rng.choice([[4, 2, 1], [3, 1], [2, 4, 1]]),
-                   "radial": rng.choice([["3/4", "7/4", "10"], ["5/4", "10"], ["1/2", "2", "10"]])}
+            ssl, rad = rng.choice([([4, 2, 1], ["3/4", "7/4", "10"]), ([3, 1], ["5/4", "10"]), ([2, 4, 1], ["1/2", "2", "10"])])
+            yield {"op": "sfs", "m": m, "subs": None, "via": via, "sub_size_list": ssl, "radial": rad}
         else:
             yield {"op": "sfs", "m": m, "subs": [rng.choice([1, 2, 3, 4]) for _ in range(n)], "via": via}
     for _ in range(2500 if big else 150): yield gen_matrix(rng)
@@ -351,6 +354,15 @@ def run_case(inp):
         mesh = mg.source_plane_mesh_grid
         mesh_o = [frac(mesh.pixel_scales[0]), frac(mesh.pixel_scales[1]), frac(mesh.origin[0]), frac(mesh.origin[1])]
         psw, M, uq, nb = observe(mapper)
+        TALLY["rect_points"] += len(grid); TALLY["non_square_meshes"] += shape[0] != shape[1]
+        TALLY["float_sub_size_cases"] += bool(inp.get("fsub"))
+        for sv in subs: TALLY["sub_sizes"][str(sv)] = TALLY["sub_sizes"].get(str(sv), 0) + 1
+        ys, xs = [p[0] for p in grid], [p[1] for p in grid]
+        h_, w_ = (max(ys) - min(ys) + 2 * buf) / shape[0], (max(xs) - min(xs) + 2 * buf) / shape[1]
+        for (y, x) in grid:
+            u, v = (max(ys) + buf - y) / h_, (x - min(xs) + buf) / w_
+            TALLY["rect_points_exactly_on_a_cell_boundary"] += (u.denominator == 1 or v.denominator == 1)
+            TALLY["rect_points_in_last_row_or_column"] += (u >= shape[0] - 1 or v >= shape[1] - 1)
         tol = F(0) if exact else TOL
         coq = (f"(KRect {cq(tol)} {cmask(m)} {cnl(subs)} {cpts(grid)} ({cz(shape[0])}, {cz(shape[1])}) {cq(buf)} "
                f"{ctup([cq(x) for x in mesh_o])} {cpsw(psw)} {cqm(M)} {cuq(uq)} {cnb(nb)})")
@@ -371,6 +383,9 @@ def run_case(inp):
         psw, M, uq, nb = observe(mapper)
         coq = (f"(KDel {cq(TOL)} {cmask(m)} {cnl(subs)} {cpts(grid)} {cpts(V)} {czm(simplices)} {czl(simplex_for)} "
                f"{czl([int(x) for x in indptr])} {czl([int(x) for x in indices])} {cpsw(psw)} {cqm(M)} {cuq(uq)} {cnb(nb)})")
+        TALLY["del_points"] += len(grid); TALLY["del_points_outside_hull"] += sum(1 for t in simplex_for if t == -1)
+        TALLY["del_points_on_an_edge_or_vertex"] += sum(1 for r, n in zip(psw[2], psw[1]) if n == 3 and any(x == 0 for x in r))
+        TALLY["float_sub_size_cases"] += bool(inp.get("fsub"))
         kinds = ("outside" if -1 in simplex_for else "") + ("inside" if any(s >= 0 for s in simplex_for) else "")
         return {"coq": coq, "out": describe(psw, M), "py_ok": None, "nontrivial": len(grid) > 1,
                 "kind": "del:" + kinds + (":float_sub_size" if inp.get("fsub") else "")}
